@@ -1,0 +1,27 @@
+//go:build verif
+
+package queue
+
+// Exports for the verification harness in /verif (build tag "verif" only).
+
+// VerifConfGroupTag runs the queue's own grouper and tag look-up (getGroup) for a file
+// name and reports the group name, the queue tag chosen for that group and its index in
+// the tag list (-1 and nil when no tag is found).
+func VerifConfGroupTag(q *Tagged, name string) (group string, idx int, tag *Tag) {
+	q.mux.Lock()
+	defer q.mux.Unlock()
+	group = q.grouper(name)
+	idx = -1
+	g := q.getGroup(group)
+	if g == nil {
+		return
+	}
+	tag = g.conf
+	for i, t := range q.tags {
+		if t == tag {
+			idx = i
+			break
+		}
+	}
+	return
+}
